@@ -261,7 +261,7 @@ func cmdCheck(args []string) int {
 	default:
 		crossSolver = *cross
 	}
-	ex := &sym.Explorer{Prog: prog, Workers: *workers, Solver: *solver, Findings: findings, Seed: seed,
+	ex := &sym.Explorer{Property: spec.ID, Prog: prog, Workers: *workers, Solver: *solver, Findings: findings, Seed: seed,
 		Cfg: sym.Config{Thorough: thorough, CrossSolver: crossSolver}}
 	if err := ex.Start(); err != nil {
 		fmt.Fprintln(os.Stderr, err)
